@@ -516,27 +516,11 @@ func c04Trigger(prop string, vals []c04Tok, css2 bool) string {
 	vals, _ = c04SplitImportant(vals)
 	// function nesting
 	var fnStack []string
-	for i, t := range vals {
+	for _, t := range vals {
 		switch t.tt {
 		case pcss.FunctionToken:
 			name := strings.ToLower(string(t.data[:len(t.data)-1]))
 			fnStack = append(fnStack, name)
-			if name == "rgb" || name == "rgba" || name == "hsl" || name == "hsla" {
-				depth, k := 0, i+1
-				for ; k < len(vals); k++ {
-					if vals[k].tt == pcss.FunctionToken || vals[k].tt == pcss.LeftParenthesisToken {
-						depth++
-					} else if vals[k].tt == pcss.RightParenthesisToken {
-						if depth == 0 {
-							break
-						}
-						depth--
-					}
-				}
-				if c04BadColorArgs(name, vals[i+1:k]) {
-					return "K-C04-12" // arguments outside the rgb()/hsl() grammar are interpreted anyway
-				}
-			}
 			continue
 		case pcss.LeftParenthesisToken:
 			fnStack = append(fnStack, "(")
@@ -550,26 +534,9 @@ func c04Trigger(prop string, vals []c04Tok, css2 bool) string {
 		if c04IsNumeric(t) {
 			n := c04NumberPrefix(t.data)
 			num := string(t.data[:n])
-			unit := strings.ToLower(string(t.data[n:]))
-			if t.tt == pcss.DimensionToken && strings.ContainsAny(unit, "0123456789\\-") {
-				return "K-C04-8" // unit is not made of letters only: Number is applied to number+unit bytes
-			}
-			zero := strings.Trim(strings.TrimLeft(num, "+-"), "0.") == "" || strings.HasPrefix(strings.Trim(strings.TrimLeft(num, "+-"), "0."), "e") || strings.HasPrefix(strings.Trim(strings.TrimLeft(num, "+-"), "0."), "E")
 			fn := ""
 			if len(fnStack) > 0 {
 				fn = fnStack[len(fnStack)-1]
-			}
-			if zero && t.tt == pcss.DimensionToken && c04AngleUnits[unit] && !c04LegacyAngleFns[fn] && prop != "flex" {
-				return "K-C04-4" // bare 0 for an <angle> outside the legacy contexts
-			}
-			if zero && t.tt == pcss.DimensionToken && c04TypedMathFns[fn] {
-				return "K-C04-5" // unit of a zero dropped inside a typed math function
-			}
-			if len(fnStack) > 0 && len(t.data) > 0 && (t.data[0] == '+' || t.data[0] == '-' && zero) && i > 0 {
-				p := vals[i-1]
-				if p.tt != pcss.WhitespaceToken && p.tt != pcss.CommaToken && p.tt != pcss.FunctionToken && p.tt != pcss.LeftParenthesisToken {
-					return "K-C04-9" // dropping the sign glues the number to the preceding token inside a function
-				}
 			}
 			if fn == "rgb" || fn == "rgba" || fn == "hsl" || fn == "hsla" {
 				if v, err := strconv.ParseFloat(num, 64); err == nil {
